@@ -29,3 +29,27 @@ package requestcontext
 //@   ensures headerGet(old(req.Header), "X-Forwarded-Uri", hver) == "" ==> ret0.RawPath == escapedPath(old(*req.URL)) && ret0.RawQuery == old(req.URL.RawQuery)
 //@   ensures ret0.Path == pathUnescape(ret0.RawPath)
 //@   ensures ret0.User == nil && ret0.Fragment == "" && ret0.Opaque == ""
+
+// ---- C13: the request view handed to the pipeline (HTTP decision service and proxy share this
+// implementation; the Envoy gRPC one in envoyextauth/grpcv3 has contracts of the same shape) ----
+
+// one heimdall.Request object per request: what the rule lookup stores on it (captured path values)
+// is what the pipeline sees
+//@ func (*RequestContext).Request
+//@   props C13
+//@   ensures ret0 != nil && r.hmdlReq == ret0
+//@   ensures old(r.hmdlReq) != nil ==> ret0 == old(r.hmdlReq)
+//@   ensures old(r.hmdlReq) == nil ==> ret0.Method == old(r.reqMethod) && ret0.RequestFunctions == iface(r) && ret0.URL != nil && ret0.URL.URL == old(*r.reqURL) && len(ret0.URL.Captures) == 0
+
+// header lookup is by canonical name; Host is the request's host
+//@ func (*RequestContext).Header
+//@   props C13
+//@   ensures canonicalKey(name) == "Host" ==> ret0 == old(r.req.Host)
+//@   assert at call Values#1: callarg0 == r.req.Header && callarg1 == canonicalKey(name)
+
+// the body is read (once) whenever the request carries one, whatever its declared length
+//@ func (*RequestContext).Body
+//@   props C13
+//@   ensures old(r.savedBody) != nil && old(r.req.Body) != nil && old(r.req.Body) != http.NoBody ==> ret0 == old(r.savedBody) && bread.n == old(bread.n)
+//@   ensures old(r.req.Body) == nil || old(r.req.Body) == http.NoBody ==> ret0 == iface("") && bread.n == old(bread.n)
+//@   ensures old(r.savedBody) == nil && old(r.req.Body) != nil && old(r.req.Body) != http.NoBody ==> bread.n == old(bread.n) + 1 && bread.arg1[old(bread.n)] == old(r.req.Body)
